@@ -13,7 +13,7 @@ package main
 // x ∈ {s, t, s+t}.  For the analytical models (JC, K2P) the eigen-system based value is obtained
 // from the *real* models.Pij.SetLength by wrapping the model so that Analytical() reports false.
 //
-// Result: `;`-separated sections `name=v,v,…`, floats printed canonically
+// Result: `ok ` followed by `;`-separated sections `name=v,v,…`, floats printed canonically
 // (strconv.FormatFloat(x,'g',17,64), `NaN`, `+Inf`, `-Inf`):
 //   n, pi, val, L, R (row-major), Ps, Pt, Pst (what goalign computes), Es, Et, Est (eigen-assembled,
 //   analytical models only), res = residuals measured here on the Go side against an independent Go
@@ -290,7 +290,7 @@ func init() {
 			return "err pij"
 		}
 		var sb strings.Builder
-		sb.WriteString("n=" + strconv.Itoa(n))
+		sb.WriteString("ok n=" + strconv.Itoa(n))
 		sb.WriteString(";pi=" + encFloats(pi))
 		sb.WriteString(";val=" + encFloats(val))
 		sb.WriteString(";L=" + encFloats(L))
